@@ -312,6 +312,13 @@ def gen_listop(w, r, pure=False):
             weights=[4, 4, 3, 2, 2, 2, 2, 2, 3, 3, 2, 1],
         )[0]
     op = {"op": "listop", "ir": I, "method": meth}
+    if not pure and r.random() < 0.04:
+        # an iterator over the list is live while the list changes size through another route
+        if cur and r.random() < 0.5:
+            return {"op": "listop", "ir": I, "method": "iter_mutate", "args": [r.randrange(0, n + 1), 0, pick(r, cur)]}
+        free = [x for x in mods if x not in cur and m.nodes[x].parent is None]
+        if free:
+            return {"op": "listop", "ir": I, "method": "iter_mutate", "args": [r.randrange(0, n + 1), 1, pick(r, free)]}
     if meth == "insert":
         x = mod()
         if x is None:
